@@ -78,6 +78,16 @@ type C16Cmd struct {
 	K    string `json:"k"`              // fwd back scroll scrollid toggle select
 	N    int    `json:"n,omitempty"`    // amount / cursor1 / record index of the id (-1: unknown id) / select: 0 main client, 1 decoy
 	Tool string `json:"tool,omitempty"` // canceled queued auto empty health checks
+	E    int    `json:"e,omitempty"`    // scrollid: the id of the E-th record from the end (1 = last) instead of N
+}
+
+// C16Early (live): after the After-th ClientMsg batch (and before the next
+// one) ScrollToTx is asked for the id of the E-th record from the end of the
+// main client's stream - issued only if no record received so far has that
+// id, ie. the lookup comes BEFORE the record.
+type C16Early struct {
+	After int `json:"after"`
+	E     int `json:"e"`
 }
 
 type C16Nav struct {
@@ -88,6 +98,8 @@ type C16Nav struct {
 	// live only: a second client "decoy" (connection "conn2") with the main
 	// client's schema
 	Decoy *C16Decoy `json:"decoy,omitempty"`
+	// live only: lookups by id between the batches
+	Early []C16Early `json:"early,omitempty"`
 }
 
 // C16Decoy: the records of the second client are Msgs (over the main
@@ -183,6 +195,15 @@ type c16NavStep struct {
 	Obs c16NavObs `json:"obs"`
 }
 
+// c16EarlyStep: an early ScrollToTx by id. Have = records of the main client
+// received so far.
+type c16EarlyStep struct {
+	ID     int       `json:"id"`
+	Have   int       `json:"have"`
+	Before c16NavObs `json:"before"`
+	After  c16NavObs `json:"after"`
+}
+
 type c16Obs struct {
 	Machine  bool         `json:"machine"`
 	N        int          `json:"n"`
@@ -215,8 +236,10 @@ type c16Obs struct {
 	Hung     bool         `json:"hung,omitempty"`
 	Err      string       `json:"err,omitempty"`
 	// the decoy client: its records as given, the index the debugger derived
-	Msgs2   []c16Rec    `json:"msgs2,omitempty"`
-	Parsed2 []c16Parsed `json:"parsed2,omitempty"`
+	Msgs2   []c16Rec       `json:"msgs2,omitempty"`
+	Parsed2 []c16Parsed    `json:"parsed2,omitempty"`
+	TxIdx2  []c16QA        `json:"q_txidx2,omitempty"`
+	Early   []c16EarlyStep `json:"early,omitempty"`
 }
 
 // ------------------------------------------------------------ the sink
@@ -781,12 +804,40 @@ func c16Headless(in *C16Input, ms *dbg.DbgMsgStruct, txs, txs2 []*dbg.DbgMsgTx, 
 		}
 		nb := max(nav.Batches, 1)
 		per := (len(all) + nb - 1) / nb
+		nBatch, nMain := 0, 0
 		for i := 0; i < len(all) && loaded; i += max(per, 1) {
-			batch := all[i:min(i+max(per, 1), len(all))]
-			conns := allConns[i:min(i+max(per, 1), len(all))]
+			end := min(i+max(per, 1), len(all))
+			batch := all[i:end]
+			conns := allConns[i:end]
 			loaded = do(func() {
 				mach.Add1(c16ss.ClientMsg, am.Pass(&types.A{MsgsTx: batch, ConnIds: conns}))
 			})
+			nBatch++
+			for _, cn := range conns {
+				if cn == "conn1" {
+					nMain++
+				}
+			}
+			// lookups by id that come before their record (TailMode is still on:
+			// only refused jumps are issued, which change nothing)
+			for _, ea := range nav.Early {
+				idx := len(txs) - ea.E
+				if !loaded || end >= len(all) || ea.After != nBatch || ea.E <= 0 || idx < nMain || idx >= len(txs) {
+					continue
+				}
+				id := txs[idx].ID
+				if slices.ContainsFunc(txs[:nMain], func(t *dbg.DbgMsgTx) bool { return t.ID == id }) {
+					continue
+				}
+				st := c16EarlyStep{ID: ids[id], Have: nMain}
+				var ok1, ok2 bool
+				st.Before, ok1 = c16Snap(d)
+				loaded = do(func() { mach.Add1(c16ss.ScrollToTx, am.Pass(&types.A{TxId: id})) })
+				st.After, ok2 = c16Snap(d)
+				if loaded && ok1 && ok2 {
+					obs.Early = append(obs.Early, st)
+				}
+			}
 		}
 	} else {
 		obs.NavMode = 1
@@ -834,8 +885,12 @@ func c16Headless(in *C16Input, ms *dbg.DbgMsgStruct, txs, txs2 []*dbg.DbgMsgTx, 
 			if prev.Sel == 1 {
 				of = txs2
 			}
-			if cmd.N >= 0 && cmd.N < len(of) {
-				id = of[cmd.N].ID
+			at := cmd.N
+			if cmd.E > 0 {
+				at = len(of) - cmd.E
+			}
+			if at >= 0 && at < len(of) {
+				id = of[at].ID
 				step.ID = ids[id]
 			}
 			f = func() { mach.Add1(c16ss.ScrollToTx, am.Pass(&types.A{TxId: id})) }
@@ -1072,6 +1127,11 @@ func c16Exec(in *C16Input, name string) *c16Obs {
 		if len(byID) > 0 { // again, through the memo
 			obs.TxIdx = append(obs.TxIdx, c16QA{0, c.TxIndex(byID[0])})
 		}
+		if cl2 := d.Clients[c16DecoyID]; cl2 != nil && obs.NavMode == 3 {
+			for i := len(byID) - 1; i >= 0; i-- {
+				obs.TxIdx2 = append(obs.TxIdx2, c16QA{uint64(i), cl2.TxIndex(byID[i])})
+			}
+		}
 		for tx := -2; tx <= n+2; tx++ {
 			row := c16Err{Tx: tx}
 			for _, dist := range c16Dists {
@@ -1242,9 +1302,12 @@ func c16Coq(obs *c16Obs) string {
 	// the later record lists are printed as deltas against the first one
 	// (length + the entries whose printed form differs); Run/EvalC16.unpatch
 	// rebuilds them
-	fmt.Fprintf(&b, " %s\n %s %s\n %s %s\n %s\n %s)", coqDelta(obs.Msgs, obs.Stored, coqMsg), coqBool(obs.ReImp),
+	fmt.Fprintf(&b, " %s\n %s %s\n %s %s\n %s\n %s", coqDelta(obs.Msgs, obs.Stored, coqMsg), coqBool(obs.ReImp),
 		coqDelta(obs.Msgs, obs.ReMsgs, coqMsg), coqDelta(obs.Parsed, obs.ReParsed, coqP),
 		coqNatList(obs.ReErrors), joinMap(obs.Msgs2, coqMsg, ";\n  "), joinMap(obs.Parsed2, coqP, ";\n  "))
+	fmt.Fprintf(&b, "\n %s\n %s)", qa(obs.TxIdx2, true), joinMap(obs.Early, func(e c16EarlyStep) string {
+		return fmt.Sprintf("(%d%%nat, %d%%nat, %s, %s)", e.ID, e.Have, c16CoqNavObs(e.Before), c16CoqNavObs(e.After))
+	}, ";\n  "))
 	return b.String()
 }
 
@@ -1295,7 +1358,26 @@ func c16GenNav(r *Rng, live bool) *C16Nav {
 			nav.Cmds = append(nav.Cmds, C16Cmd{K: "toggle", Tool: tools[r.Intn(len(tools))]})
 		}
 	}
+	if live {
+		c16GenEarly(r, nav, r.Intn(len(nav.Cmds)+1))
+	}
 	return nav
+}
+
+// c16GenEarly: most live sessions of several batches look an id up BEFORE
+// its record arrives (one of the last records, asked for after an early
+// batch) and jump to the same id again at position `at` of the commands,
+// when the record is there.
+func c16GenEarly(r *Rng, nav *C16Nav, at int) {
+	if nav.Batches < 2 || !r.Chance(70) {
+		return
+	}
+	e := r.Range(1, 3)
+	nav.Early = append(nav.Early, C16Early{After: r.Range(1, nav.Batches-1), E: e})
+	if r.Chance(30) {
+		nav.Early = append(nav.Early, C16Early{After: r.Range(1, nav.Batches-1), E: r.Range(1, 4)})
+	}
+	nav.Cmds = slices.Insert(nav.Cmds, at, C16Cmd{K: "scrollid", E: e})
 }
 
 // c16GenNav2: a live session of two clients. The commands come in rounds:
@@ -1362,6 +1444,8 @@ func c16GenNav2(r *Rng) *C16Nav {
 		sw()
 		move(r.Range(2, 5))
 	}
+	// the later jump comes first: the main client is still selected
+	c16GenEarly(r, nav, 0)
 	return nav
 }
 
